@@ -794,6 +794,8 @@ class LayoutEval:
             b = self_attr(n.value)
             if b and b in self.inmem:
                 dt, dims = self.inmem[b]
+                if dt is None or any(d is None for d in dims):
+                    return None
                 p = Poly.const(ITEMSIZE[dt.bits])
                 for d in dims:
                     p = p * d
@@ -940,6 +942,8 @@ class LayoutInterp:
             base = self.ev(n.value, env)
             if isinstance(base, tuple) and base and base[0] == "table":
                 dt, dims = self.inmem[base[1]]
+                if dt is None or any(d_ is None for d_ in dims):
+                    raise LIUndecided("dtype / shape of self.%s not known" % base[1])
                 if n.attr == "nbytes":
                     p_ = Poly.const(ITEMSIZE[dt.bits])
                     for d_ in dims:
